@@ -26,7 +26,7 @@ def BOUNDS(tier):
 
 
 def REQUIRED_COVER(tier):
-    return {'accept', 'reject:duplicate', 'reject:weight', 'reject:exact-two-thirds', 'reject:empty-set', 'reject:invalid', 'reject:foreign', 'n:3', 'parsed-descriptors', 'two-calls', 'reused-descriptors', 'block:shardchain'}
+    return {'argforms', 'accept', 'reject:duplicate', 'reject:weight', 'reject:exact-two-thirds', 'reject:empty-set', 'reject:invalid', 'reject:foreign', 'n:3', 'parsed-descriptors', 'two-calls', 'reused-descriptors', 'block:shardchain'}
 
 
 MAGIC = bytes.fromhex('706e0bc5')
@@ -151,6 +151,23 @@ def case_sigs(rec, weights, seq, blk, parsed=False, wc=-1):
             rec.outcome('WRONGLY-REJECTED')
     else:
         rec.outcome('accept' if got else 'reject')
+    # argument forms: the validator list and the signature list are only iterated - a tuple, a one-shot iterator (generator, map
+    # object) or a dictionary view denote the same sets and must get the same verdict
+    if blk == 0 and seq:
+        for form, mk_nodes, mk_entries in (('iterators', lambda: iter(list(nodes)), lambda: (e for e in list(entries))),
+                                           ('tuple+view', lambda: tuple(nodes), lambda: dict(enumerate(entries)).values())):
+            if form == 'tuple+view' and not want and len(seq) > 2:
+                continue
+            rec.trans()
+            try:
+                check_block_signatures(mk_nodes(), mk_entries(), bid)
+                got2 = True
+            except Exception:
+                got2 = False
+            rec.covered('argforms')
+            if got2 != want:
+                rec.violation(f'argform:{form}', f'weights {weights}, signatures {seq} handed over as {form}: {"accepted" if got2 else "rejected"}, must be '
+                              f'{"accepted" if want else "rejected"} (lists get the right verdict)', 'case_sigs', args)
 
 
 def weight_vectors(n, tier):
